@@ -40,11 +40,13 @@ type Engine struct {
 	globals   map[*ssa.Global]*Obj
 	initGhost map[string]Value
 	restObjs  map[string]*Obj
+	restVals  map[string]Value
 	entries   map[string]*EntryInfo
 	ghostSorts map[string]string
 	refPayload map[*Term]IfaceV
 	symByRef   map[*Term]*SymIface
 	refFactsBy map[string][]*Term
+	globalRefs []string
 	extraTerms []*Term
 	obls      []*Obligation
 	assumpLog map[string]bool
@@ -76,6 +78,7 @@ func newEngine() *Engine {
 		globals:   map[*ssa.Global]*Obj{},
 		initGhost: map[string]Value{},
 		restObjs:  map[string]*Obj{},
+		restVals:  map[string]Value{},
 		entries:   map[string]*EntryInfo{},
 		ghostSorts: map[string]string{},
 		refPayload: map[*Term]IfaceV{},
